@@ -24,6 +24,8 @@ func checkC20(c *Ctx) {
 	r203(c)
 	r204(c)
 	r205(c)
+	// what the operator typed is what is sent
+	rFlagsBoundToCommand(c, "R20.6 flags-bound-to-the-command-object")
 }
 
 func r201(c *Ctx) {
@@ -942,4 +944,50 @@ func (c *Ctx) listRowColumns(rule string, row callSite, cols []ssa.Value) {
 		}
 	}
 	c.ob(rule, "displayResponse/column-TLS", row.pos(), okTLS && nCases >= 2, true, "the TLS cell must say yes exactly when this entry's TLS flag is set: "+why)
+}
+
+// rFlagsBoundToCommand: every flag of a client command is bound (`XxxVar(&target, ...)`) to a field of the command object
+// the constructor returns - the object whose `args` run() sends to the proxy. A flag bound to a local that is copied into
+// the command afterwards is parsed into a variable nobody reads: the RPC then always carries the defaults (shared with
+// C03 / C17: drain, deploy and pause timeouts given on the command line must be the ones the proxy gets).
+func rFlagsBoundToCommand(c *Ctx, rule string) {
+	c.floor(rule, 10)
+	n := 0
+	for _, fn := range c.modFuncs {
+		if fn.Pkg != c.cmd || fn.Parent() != nil || !strings.HasPrefix(fn.Name(), "new") || !strings.HasSuffix(fn.Name(), "Command") {
+			continue
+		}
+		// the object returned
+		var returned ssa.Value
+		for _, ret := range normalReturns(fn) {
+			if len(ret.Results) == 1 {
+				returned = resolve(ret.Results[0])
+			}
+		}
+		for _, cs := range callsIn(fn) {
+			name := calleeName(cs.common())
+			if !strings.HasPrefix(name, "(*github.com/spf13/pflag.FlagSet).") || !strings.HasSuffix(name, "Var") || len(cs.common().Args) < 2 {
+				continue
+			}
+			n++
+			// root of the address the flag is parsed into
+			addr := cs.common().Args[1]
+			for {
+				if fa, ok := addr.(*ssa.FieldAddr); ok {
+					addr = fa.X
+					continue
+				}
+				if ia, ok := addr.(*ssa.IndexAddr); ok {
+					addr = ia.X
+					continue
+				}
+				break
+			}
+			root := resolve(addr)
+			_, isGlobal := root.(*ssa.Global)
+			ok := returned != nil && (root == returned || isGlobal)
+			c.ob(rule, fmt.Sprintf("%s/flag %s bound to the command object", fn.Name(), func() string { s, _ := constString(cs.common().Args[2]); return s }()), cs.pos(), ok, true, "a flag must be parsed into a field of the command object that the constructor returns (or a package-level setting): a local that is copied into the command afterwards keeps the parsed value to itself")
+		}
+	}
+	c.note("flag bindings examined: %d", n)
 }
